@@ -58,6 +58,25 @@ def vary_spacing(rng, t, p=0.5):
 # ------------------------------------------------------------------ skeletons
 ALLOWED_IGNORED = ("pass", "print", "import", "from", "global", "doc")
 
+# knobs of the skeleton generator (set by the caller for a batch of programs):
+#   hollow     probability that the body of a block (any kind: if / elif / else / while / for / try /
+#              except / def / main loop) consists ONLY of lines of the fixed set (pass, print, docstring,
+#              import) - a body that emits no device code
+#   max_elifs  longest run of elif branches
+#   jumps      also generate `break` (inside for/while) and a bare `return` (inside def bodies)
+OPTS = {"hollow": 0.0, "max_elifs": 2, "jumps": False}
+
+
+def hollow_body(rng, cnt):
+    out = []
+    for _ in range(rng.choice([1, 1, 2, 3])):
+        k = cnt.next()
+        kind = rng.choice(["pass", "pass", "print", "print", "doc", "import", "from"])
+        text = {"pass": "pass", "print": f"print({O0}\"p{k}\"{O0})", "import": "import os",
+                "from": f"from{M1}math{M1}import{M1}sin", "doc": rng.choice([f'"""doc {k}"""', f"'note {k}'"])}[kind]
+        out.append(("leaf", text, ("allowed", kind)))
+    return out
+
 
 def gen_leaf(rng, cnt, fnames=(), in_func=False, loop=None):
     """-> ("leaf", template, meta); meta = ("mark", k) for a statement whose number k must show up in
@@ -67,6 +86,10 @@ def gen_leaf(rng, cnt, fnames=(), in_func=False, loop=None):
     loop = None (not inside any loop: no `continue`), "loop" or "main"."""
     if loop is not None and rng.random() < 0.12:
         return ("leaf", "continue", ("continue", loop))
+    if OPTS["jumps"] and loop == "loop" and rng.random() < 0.08:
+        return ("leaf", "break", ("jump", "break;"))
+    if OPTS["jumps"] and in_func and loop is None and rng.random() < 0.08:
+        return ("leaf", "return", ("jump", "return;"))
     r = rng.random()
     k = cnt.next()
     if r < 0.40:
@@ -95,36 +118,41 @@ def gen_leaf(rng, cnt, fnames=(), in_func=False, loop=None):
     return ("leaf", f"{rng.choice(list(fnames))}({O0})", ("plain",))
 
 
-def gen_body(rng, cnt, depth, maxdepth, fnames=(), n=None, loop=None):
+def gen_body(rng, cnt, depth, maxdepth, fnames=(), n=None, loop=None, in_func=False):
+    if OPTS["hollow"] and rng.random() < OPTS["hollow"]:
+        return hollow_body(rng, cnt)
     out = []
     n = n if n is not None else rng.randint(1, 3)
     for _ in range(n):
-        out += gen_stmt(rng, cnt, depth, maxdepth, fnames, loop)
+        out += gen_stmt(rng, cnt, depth, maxdepth, fnames, loop, in_func)
     return out
 
 
-def gen_stmt(rng, cnt, depth, maxdepth, fnames=(), loop=None):
+def gen_stmt(rng, cnt, depth, maxdepth, fnames=(), loop=None, in_func=False):
     """-> list of sibling nodes (a chain yields several); loop: the innermost enclosing loop
     (None | "loop" = for/while | "main" = the main loop), inherited by if/elif/else/try/except bodies"""
     if depth >= maxdepth or rng.random() < 0.45:
-        return [gen_leaf(rng, cnt, fnames, loop=loop)]
+        return [gen_leaf(rng, cnt, fnames, in_func=in_func, loop=loop)]
     r = rng.random()
     k = cnt.next()
     if r < 0.45:
-        nodes = [("block", "if", f"if{M1}x{O1}>{O1}{k}{O0}:", gen_body(rng, cnt, depth + 1, maxdepth, fnames, loop=loop))]
-        for _ in range(rng.choice([0, 0, 1, 1, 2])):
-            nodes.append(("block", "elif", f"elif{M1}x{O1}>{O1}{cnt.next()}{O0}:", gen_body(rng, cnt, depth + 1, maxdepth, fnames, loop=loop)))
+        nodes = [("block", "if", f"if{M1}x{O1}>{O1}{k}{O0}:", gen_body(rng, cnt, depth + 1, maxdepth, fnames, loop=loop, in_func=in_func))]
+        for _ in range(rng.choice([0, 0, 1, 1, 2] + list(range(3, OPTS["max_elifs"] + 1)))):
+            nodes.append(("block", "elif", f"elif{M1}x{O1}>{O1}{cnt.next()}{O0}:", gen_body(rng, cnt, depth + 1, maxdepth, fnames, loop=loop, in_func=in_func)))
         if rng.random() < 0.6:
-            nodes.append(("block", "else", f"else{O0}:", gen_body(rng, cnt, depth + 1, maxdepth, fnames, loop=loop)))
+            nodes.append(("block", "else", f"else{O0}:", gen_body(rng, cnt, depth + 1, maxdepth, fnames, loop=loop, in_func=in_func)))
         return nodes
     if r < 0.65:
-        return [("block", "while", f"while{M1}x{O1}<{O1}{k}{O0}:", gen_body(rng, cnt, depth + 1, maxdepth, fnames, loop="loop") + [("leaf", f"x{O1}+={O1}1", ("plain",))])]
+        wb = gen_body(rng, cnt, depth + 1, maxdepth, fnames, loop="loop", in_func=in_func)
+        if any(n[0] != "leaf" or n[2][0] != "allowed" for n in wb):
+            wb = wb + [("leaf", f"x{O1}+={O1}1", ("plain",))]
+        return [("block", "while", f"while{M1}x{O1}<{O1}{k}{O0}:", wb)]
     if r < 0.88:
-        return [("block", "for", f"for{M1}i{depth}{M1}in{M1}range({O0}{k % 5 + 1}{O0}){O0}:", gen_body(rng, cnt, depth + 1, maxdepth, fnames, loop="loop"))]
-    nodes = [("block", "try", f"try{O0}:", gen_body(rng, cnt, depth + 1, maxdepth, fnames, loop=loop))]
+        return [("block", "for", f"for{M1}i{depth}{M1}in{M1}range({O0}{k % 5 + 1}{O0}){O0}:", gen_body(rng, cnt, depth + 1, maxdepth, fnames, loop="loop", in_func=in_func))]
+    nodes = [("block", "try", f"try{O0}:", gen_body(rng, cnt, depth + 1, maxdepth, fnames, loop=loop, in_func=in_func))]
     for i in range(rng.choice([1, 1, 2])):
         h = rng.choice([f"except{M1}Exception{O0}:", f"except{M1}ValueError{O0}:", f"except{M1}Exception{M1}as{M1}err{O0}:", f"except{O0}:"]) if i == 0 else f"except{O0}:"
-        nodes.append(("block", "except", h, gen_body(rng, cnt, depth + 1, maxdepth, fnames, loop=loop)))
+        nodes.append(("block", "except", h, gen_body(rng, cnt, depth + 1, maxdepth, fnames, loop=loop, in_func=in_func)))
     return nodes
 
 
@@ -135,7 +163,7 @@ def gen_program(rng, maxdepth=3, main_loop=None):
     fnames = []
     for i in range(rng.choice([0, 0, 1, 2])):
         name = f"fn{i}"
-        body = gen_body(rng, cnt, 1, maxdepth)
+        body = gen_body(rng, cnt, 1, maxdepth, in_func=True)
         if rng.random() < 0.4:
             body = [("leaf", f"global{M1}x", ("allowed", "global"))] + body
         tops.append(("def", f"def{M1}{name}({O0}){O0}:", body))
@@ -146,6 +174,61 @@ def gen_program(rng, maxdepth=3, main_loop=None):
     if main_loop if main_loop is not None else rng.random() < 0.75:
         tops.append(("main", f"while{M1}True{O0}:", gen_body(rng, cnt, 1, maxdepth, fnames, n=rng.randint(1, 4), loop="main")))
     return tops
+
+
+def systematic_programs():
+    """every if chain with 1-3 branches and an optional else whose bodies are drawn from {a device
+    statement, `pass`, a host-only print} (exhaustive), every try with 1-2 handlers and every loop over
+    the same alphabet, spread over the four places a statement can stand: column 0 (setup), the main
+    loop, a function body, the body of a for loop"""
+    import itertools
+    cnt = Counter()
+
+    def body(kind):
+        k = cnt.next()
+        if kind == "W":
+            return [("leaf", f"mon.write({O0}{k}{O0})", ("mark", k))]
+        if kind == "P":
+            return [("leaf", "pass", ("allowed", "pass"))]
+        return [("leaf", f"print({O0}\"p{k}\"{O0})", ("allowed", "print"))]
+
+    units = []
+    for n in (1, 2, 3):
+        for bs in itertools.product("WPR", repeat=n):
+            for e in ("", "W", "P"):
+                nodes = []
+                for i, b in enumerate(bs):
+                    kw = "if" if i == 0 else "elif"
+                    nodes.append(("block", kw, f"{kw}{M1}x{O1}>{O1}{cnt.next()}{O0}:", body(b)))
+                if e:
+                    nodes.append(("block", "else", f"else{O0}:", body(e)))
+                units.append(nodes)
+    for tb in "WP":
+        for hs in list(itertools.product("WP", repeat=1)) + list(itertools.product("WP", repeat=2)):
+            nodes = [("block", "try", f"try{O0}:", body(tb))]
+            for i, hb in enumerate(hs):
+                nodes.append(("block", "except", f"except{M1}ValueError{O0}:" if i == 0 and len(hs) == 2 else f"except{O0}:", body(hb)))
+            units.append(nodes)
+    for b in "PR":
+        units.append([("block", "while", f"while{M1}x{O1}<{O1}{cnt.next()}{O0}:", body(b))])
+        units.append([("block", "for", f"for{M1}j{M1}in{M1}range({O0}3{O0}){O0}:", body(b))])
+    progs = []
+    per = 8
+    for i in range(0, len(units), per):
+        chunk = units[i: i + per]
+        place = (i // per) % 4
+        tops = [("imp", s) if s.startswith("from ") else ("chain", [("leaf", s, ("plain",))]) for s in PRELUDE]
+        if place == 0:
+            tops += [("chain", u) for u in chunk]
+        elif place == 1:
+            tops.append(("main", f"while{M1}True{O0}:", [n for u in chunk for n in u]))
+        elif place == 2:
+            tops.append(("def", f"def{M1}fn0({O0}){O0}:", [n for u in chunk for n in u]))
+            tops.append(("chain", [("leaf", f"fn0({O0})", ("plain",))]))
+        else:
+            tops.append(("chain", [("block", "for", f"for{M1}i0{M1}in{M1}range({O0}2{O0}){O0}:", [n for u in chunk for n in u])]))
+        progs.append(tops)
+    return progs
 
 
 def skeleton_size(tops):
